@@ -14,7 +14,7 @@ from checks import common as cm
 from checks import phys, c01
 
 ID = 'C18'
-BUDGET = {'quick': 500, 'thorough': 40000}
+BUDGET = {'quick': 400, 'thorough': 40000}
 WALL = {'quick': 170, 'thorough': 3000}
 CHUNK = 4
 CASE_TIMEOUT = 900
